@@ -749,6 +749,7 @@ class C18(Prop):
         held, released, held_counts, order = {}, set(), [], []
         n = max(1, inv["threads"])
         ok = True
+        ok_conc = True
 
         def poll_held():
             for pth in paths:
@@ -771,7 +772,8 @@ class C18(Prop):
             want = min(n, len(paths) - k)
             # wait until the expected number of workers is blocked reading; then look once more
             # after a short pause so that *more* concurrent readers than expected would be seen too
-            settle = time.time() + 20     # fewer readers than expected for this long: record what is there
+            # fewer readers than expected for this long: record what is there (and do not wait again)
+            settle = time.time() + (20 if ok_conc else 0.3)
             while time.time() < min(deadline, settle) and proc.poll() is None:
                 poll_held()
                 if len(held) >= want:
@@ -780,6 +782,8 @@ class C18(Prop):
             time.sleep(0.02 if k == 0 else 0.002)
             poll_held()
             held_counts.append(len(held))
+            if len(held) < want:
+                ok_conc = False
             if not held:
                 ok = False
                 break
